@@ -134,11 +134,16 @@ func sortKeyCond(kind, attr string, pool []string, r *rand.Rand, values val.Item
 
 // buildState replays a random write history on a fresh client + model.
 func buildState(r *rand.Rand, adapter string, spec adapt.TableSpec, n int, ctx *runner.Ctx, x *res) (adapt.Client, *model.Client, []adapt.Op, bool) {
-	cl, m, ds := freshClient(adapter, spec)
+	// the state is built next to a COMPANION table of the same client (modelled, written in between) and a
+	// same-named table of a SECOND client (other contents): nothing of either may show in what is read afterwards
+	companion := ixSpec("cmp"+spec.Name[3:], true)
+	cl, m, ds := freshClient(adapter, spec, companion)
 	if ds != nil {
 		x.viol("setup", "create", ds[0].Detail, spec)
 		return nil, nil, nil, false
 	}
+	shadow := adapt.New(adapter)
+	shadow.Do(createOp(spec))
 	ops := []adapt.Op{}
 	// a quarter of the states are "lived-in": the table is cleared somewhere in the history and refilled; a
 	// sixth lose and regain an index (UpdateTable delete + create, i.e. a backfill) - what is read afterwards
@@ -171,6 +176,15 @@ func buildState(r *rand.Rand, adapter string, spec adapt.TableSpec, n int, ctx *
 			}
 		}
 		ops = append(ops, ixRandomWrite(r, spec.Name, i))
+		if r.Intn(3) == 0 {
+			ops = append(ops, ixRandomWrite(r, companion.Name, 500+i))
+		}
+		if r.Intn(3) == 0 {
+			shadow.Do(ixRandomWrite(r, spec.Name, 900+i))
+		}
+		if i == clearAt+1 && r.Intn(2) == 0 {
+			ops = append(ops, adapt.Op{Kind: adapt.OpClearTable, Table: companion.Name})
+		}
 	}
 	st := &mon.HistoryStats{}
 	if f := mon.RunHistory(cl, m, ops, mon.KeyLog{}, false, nil, ctx.Trace, st); f != nil {
